@@ -189,6 +189,23 @@ def run(tier: str) -> int:
             type(MetadataSchema)("Sub2", (ver,), {"__annotations__": {}})
         except TypeError as ex:
             rep.violation(f"a schema class obtained WITH a version could not be subclassed: {ex}", {})
+        # ---- a request without a version resolves to the requested plugin (newest version), whatever was requested
+        # before in the process: ancestors first, then descendants, for installed schemas and a registered chain
+        from . import c13models as LM
+        synth.register_package("vl-pkg", "1.0.0", [LM.LP, LM.LGood, LM.LLeafOk])
+        nunv = 0
+        for pname in ["core.dir", "core.bib", "core.file", "core.imagefile", "vl.pp", "vl.good", "vl.leafok",
+                      "core.bib", "core.dir", "core.imagefile", "core.file"]:
+            nunv += 1
+            for how, got in (("get", schemas.get(pname)), ("[]", schemas[pname])):
+                ref = schemas.resolve(pname)
+                exact = schemas._get_unsafe(ref.name, ref.version)
+                if got is None or got.Plugin.name != pname or tuple(got.Plugin.version) != tuple(ref.version) \
+                        or set(got.__fields__) != set(exact.__fields__):
+                    rep.violation(f"schemas.{how}({pname!r}) without version handed out "
+                                  f"{getattr(getattr(got, 'Plugin', None), 'name', None)} with fields {sorted(getattr(got, '__fields__', []))[:6]}",
+                                  {"requested": pname})
+        rep.parts["unversioned_requests"] = {"requests": nunv}
         # ---- entry point name codec
         letters, alnum = "az", "a9"
         # NAME = letter alnum (sep? alnum)*   (documented grammar in plugin/types.py)
